@@ -393,6 +393,12 @@ def run(ctx, focus):
             ctx.mismatch(f'the recorded trace of run {run_["irun"]} ({run_["result"]}, {len(run_["trace"])} '
                          f'events) is not a trace of the scheduler model :: {brief(case)}',
                          replay_case(case, run_))
+    if focus == 'C03':
+        from vp import scheddriver
+        scheddriver.run(ctx)
+    if focus in ('C02', 'C04'):
+        from vp import scheddecide
+        scheddecide.run(ctx, 1200 if quick else 9000)
     ctx.assumptions = [
         'CPython threading/queue primitives behave as the shims in harness/vp/detsched.py (FIFO queue, '
         'join waits for unfinished == 0, notify_all wakes all waiters, re-entrant locks)',
